@@ -338,6 +338,11 @@ def main():
         gens.update(translate_more.GENS)
     except ImportError:
         pass
+    try:
+        import translate_src
+        gens["Source.v"] = translate_src.generate
+    except ImportError:
+        pass
     for name, g in gens.items():
         if write_if_changed(os.path.join(OUT, name), g()):
             changed.append(name)
